@@ -63,6 +63,25 @@ theorem min_le_max (s : Bool) (n : Nat) : minI s n ≤ maxI s n := by
   have h2 : (0 : Int) < 2 ^ n := two_pow_pos _
   unfold minI maxI; cases s <;> simp <;> omega
 
+/-- C02 in the property's words.  `FourForms L E …` (the shape every clause of `C02.holds` has) says: for the ONE exact result `E`,
+  wrapping returns the representable value congruent to `E` mod 2^n, saturating the representable value nearest to `E`, checked `Some E` exactly when
+  `E` is representable, overflowing the wrapped value with the flag "not representable" — whatever numbers `w`, `c` satisfy those sentences. -/
+theorem four_forms_by_sentence (L : Layout) (hv : L.valid) (E : Int) {chk : Outcome (Option Int)} {sat wrp : Outcome Int}
+    {ovf : Outcome (Int × Bool)} (h : FourForms L E chk sat wrp ovf) (w c : Int)
+    (hw : IsWrapped L.signed L.n E w) (hc : IsNearest L.signed L.n E c) :
+    wrp = .ok w false ∧ sat = .ok c false ∧ (inRange L E → chk = .ok (some E) false) ∧ (¬ inRange L E → chk = .ok none false) ∧
+    ovf = .ok (w, !decide (inRange L E)) false := by
+  obtain ⟨h2, _, _, _⟩ := C01.valid_facts hv
+  have hn : 0 < L.n := by omega
+  have ew := wrapped_unique L.signed hn E w hw
+  have ec := nearest_unique L.signed L.n (min_le_max _ _) E c hc
+  refine ⟨?_, ?_, fun hr => ?_, fun hr => ?_, ?_⟩
+  · rw [h.wrapping, ew]; rfl
+  · rw [h.saturating, ec]; rfl
+  · rw [h.checked]; unfold Layout.chk; rw [(chkI_sentence _ _ E).1 hr]
+  · rw [h.checked]; unfold Layout.chk; rw [(chkI_sentence _ _ E).2 hr]
+  · rw [h.overflowing, ew]; rfl
+
 /-- non-vacuity: 200 in an 8-bit signed word wraps to −56, saturates to 127, is not representable; −129 wraps to 127 -/
 example : wrapI true 8 200 = -56 ∧ clampI true 8 200 = 127 ∧ chkI true 8 200 = none ∧ ovfI true 8 (-129) = (127, true) := by decide
 
